@@ -168,10 +168,48 @@ _B = {
 _PAIR = {'a1': 'b2', 'b1': 'a2', 'a2': 'b1', 'b2': 'a1'}
 
 
+def special_fills(dt, shape):
+    """Names of the special-value fills of the reduction states (floating dtypes only): a NaN
+    in one single position in turn - the first entry of every leaf (row along the last axis,
+    i.e. every part of a power space, every leaf of a nested one; every entry in 1-d) and the
+    very last entry -, +inf, -inf, both, and signed zeros."""
+    if np.dtype(dt).kind not in 'fc':
+        return []
+    n = int(np.prod(shape))
+    leaf = shape[-1] if len(shape) > 1 else 1
+    pos = sorted(set(list(range(0, n, leaf)) + [n - 1]))
+    return ['nan%d' % k for k in pos] + ['pinf', 'ninf', 'inf', 'zero', 'nzero']
+
+
+def _special(dt, shape, which):
+    n = int(np.prod(shape)) if len(shape) else 1
+    a = np.array(_F['a1'][:n], dtype=float)
+    if which.startswith('nan'):
+        a[int(which[3:])] = np.nan
+    elif which == 'pinf':
+        a[n // 2] = np.inf
+    elif which == 'ninf':
+        a[n // 2] = -np.inf
+    elif which == 'inf':
+        a[0], a[n - 1] = np.inf, -np.inf
+    elif which == 'zero':
+        a = np.where(np.arange(n) % 2 == 0, 0.0, -0.0)
+    elif which == 'nzero':
+        a = np.where(np.arange(n) % 2 == 0, -0.0, 0.0)
+    else:
+        raise KeyError(which)
+    if np.dtype(dt).kind == 'c':
+        a = a + 1j * np.array(_F['b2'][:n]) * (0.0 if 'zero' in which else 1.0)
+    with np.errstate(all='ignore'):
+        return a.astype(dt).reshape(shape)
+
+
 def fill(dt, shape, which):
     """Fresh array of the given dtype/shape holding the fill ``which``."""
     n = int(np.prod(shape)) if len(shape) else 1
     dt = np.dtype(dt)
+    if which not in _F:
+        return _special(dt, shape, which)
     if dt.kind == 'f':
         a = np.array(_F[which][:n], dtype=dt)
     elif dt.kind == 'c':
@@ -963,6 +1001,9 @@ def _axis_alphabet(ndim, full):
     return opts
 
 
+SPECIAL_RED = ('add', 'multiply', 'minimum', 'maximum', 'fmin', 'fmax')
+
+
 def sec_reduce(ctx, uf, full):
     if uf.nin != 2 or uf.nout != 1 or uf.__name__ in GUFUNCS:
         return
@@ -996,6 +1037,20 @@ def sec_reduce(ctx, uf, full):
             kw['where'] = _mask(ctx.shape)
             run_case(ctx, uf, 'reduce', ops, 'none', kw)
             run_case(ctx, uf, 'reduce', ops, outs[-1], kw)
+    # special values (NaN in each single part / leaf in turn, infinities, signed zeros): the
+    # property demands NumPy's numbers whatever the data; a reduction that is assembled from
+    # partial results must propagate them exactly as NumPy does on the whole array
+    if full or uf.__name__ in SPECIAL_RED:
+        if ctx.family == 'power':
+            sp_axes = [{'axis': None}]      # partial reductions: see the known findings
+        else:
+            sp_axes = [{}, {'axis': None}, {'axis': ctx.ndim - 1}]
+            if full:
+                sp_axes += [{'axis': a} for a in range(ctx.ndim - 1)]
+        for fl in special_fills(ctx.dt, ctx.shape):
+            for ax in sp_axes:
+                run_case(ctx, uf, 'reduce', [('E', fl)], 'none', dict(ax),
+                         extra_tags=['special-values'])
     # second fill, default options (thorough: the whole axis alphabet)
     run_case(ctx, uf, 'reduce', [('E', 'b2')], 'none', {})
     run_case(ctx, uf, 'reduce', [('E', 'a2')], 'none', {'axis': None})
@@ -1178,7 +1233,7 @@ def _legacy_problems(ctx, res, ref, outs_o, outs_r):
     return problems
 
 
-def _legacy_one(ctx, name, uf, x_fill, x2spec, outspec, kw, cls, red=None):
+def _legacy_one(ctx, name, uf, x_fill, x2spec, outspec, kw, cls, red=None, extra_tags=()):
     """One call of ``x.ufuncs.<name>`` against ``np.<name>`` on the arrays.
 
     The clause judged here is "the legacy interface agrees with the NumPy call": a deviation
@@ -1201,7 +1256,7 @@ def _legacy_one(ctx, name, uf, x_fill, x2spec, outspec, kw, cls, red=None):
             o_args, r_args = [o], [r]
             if b is not None:
                 keep = [(o, b)]
-    tags = _axis_tags(kw)
+    tags = list(extra_tags) + _axis_tags(kw)
     if x2spec is not None and x2spec[0] != 'E':
         tags.append('x2=' + x2spec[0] + (str(x2spec[2]) if x2spec[0] == 'EB' else ''))
     label = 'ufuncs:reduction' if red else 'ufuncs:%d->%d' % (uf.nin, uf.nout)
@@ -1311,9 +1366,11 @@ def _legacy_one(ctx, name, uf, x_fill, x2spec, outspec, kw, cls, red=None):
     def rerun(c2, u, mapped=False):
         kw2 = _map_kw(kw, ctx.dt, c2.dt) if mapped else kw
         if u is None:
-            _legacy_one(c2, name, uf, x_fill, x2spec, outspec, kw2, cls, red=red)
+            _legacy_one(c2, name, uf, x_fill, x2spec, outspec, kw2, cls, red=red,
+                        extra_tags=extra_tags)
         else:
-            _legacy_one(c2, u.__name__, u, x_fill, x2spec, outspec, kw2, cls)
+            _legacy_one(c2, u.__name__, u, x_fill, x2spec, outspec, kw2, cls,
+                        extra_tags=extra_tags)
 
     for sym, t in problems:
         if np_syms is not None and sym in np_syms:
@@ -1325,6 +1382,56 @@ def _legacy_one(ctx, name, uf, x_fill, x2spec, outspec, kw, cls, red=None):
     return True
 
 
+def _np_function(ctx, fname, fl, kw, special):
+    """np.sum / np.prod / np.min / np.max (plain functions that NumPy routes to ufunc.reduce, or
+    for power spaces through __array__ / __array_wrap__) on an element against the same function
+    on the array."""
+    a = fill(ctx.dt, ctx.shape, fl)
+    x = ctx.elem(a.copy())
+    fn = getattr(np, fname)
+    try:
+        ref = fn(a.copy(), **kw)
+    except Exception:
+        ctx.inappl += 1
+        return
+    tags = (['special-values'] if special else []) + _axis_tags(kw)
+    text = 'np.%s(%s%s) in %s' % (fname, _short(x), (', ' + _kwdesc(kw)) if kw else '',
+                                  _sprepr(ctx.space))
+    label = 'np.sum|prod|min|max'
+    ctx.evals += 1
+    probs = []
+    try:
+        res = fn(x, **kw)
+    except Exception as e:
+        probs.append(('raises:' + type(e).__name__,
+                      'NumPy on the array gives %s, odl raises %s: %s'
+                      % (_short(ref), type(e).__name__, str(e)[:200])))
+    else:
+        if np.ndim(ref) == 0:
+            probs = check_scalar(res, ref)
+            ctx.sigs.add('npfn>scalar')
+        else:
+            probs = check_wrapped(ctx, res, ref)
+            ctx.sigs.add('npfn>wrapped')
+        if not _bits_equal(x.asarray(), a):
+            probs.append(('input_modified', 'the element changed to %s' % _short(x)))
+    if not probs:
+        return
+    # NumPy routes these functions to <ufunc>.reduce(x, axis=...): a deviation the ufunc method
+    # shows as well is reported by the reduce section (its sites), not a second time here
+    c2 = Ctx(ctx.kind, ctx.dt, control=True)
+    rkw = dict(kw)
+    rkw.setdefault('axis', None)
+    run_case(c2, UF[{'sum': 'add', 'prod': 'multiply', 'min': 'minimum',
+                     'max': 'maximum'}[fname]], 'reduce', [('E', fl)], 'none', rkw)
+    shared = [f[3] for f in c2.fails]
+    for sym, t in probs:
+        if sym in shared:
+            ctx.sigs.add('npfn>same-as-ufunc-reduce:' + sym)
+            continue
+        ctx.fail(label, tags, sym, '%s: %s' % (text, t), cls=ctx.cls)
+
+
 LEGACY_RED = {'sum': 'add', 'prod': 'multiply', 'min': 'minimum', 'max': 'maximum'}
 
 
@@ -1334,11 +1441,21 @@ def sec_legacy(ctx, name, full):
     cls = 'ProductSpaceUfuncs' if power else 'TensorSpaceUfuncs(%s)' % ctx.cls
     if name in LEGACY_RED:
         uf = UF[LEGACY_RED[name]]
+        npfn = {'sum': 'sum', 'prod': 'prod', 'min': 'min', 'max': 'max'}[name]
+        specials = special_fills(ctx.dt, ctx.shape)
         if power:
             # documented signature: no arguments
-            for fl in ('a1', 'b1', 'a2'):
-                _legacy_one(ctx, LEGACY_RED[name], uf, fl, None, 'none', {}, cls, red=name)
+            for fl in ['a1', 'b1', 'a2'] + specials:
+                _legacy_one(ctx, LEGACY_RED[name], uf, fl, None, 'none', {}, cls, red=name,
+                            extra_tags=['special-values'] if fl in specials else [])
+                _np_function(ctx, npfn, fl, {}, fl in specials)
             return
+        for fl in ['a1'] + specials:
+            for ax in [{}, {'axis': 0}, {'axis': -1}]:
+                if fl != 'a1':
+                    _legacy_one(ctx, LEGACY_RED[name], uf, fl, None, 'none', dict(ax), cls,
+                                red=name, extra_tags=['special-values'])
+                _np_function(ctx, npfn, fl, dict(ax), fl in specials)
         axes = [{}, {'axis': None}] + [{'axis': a} for a in range(ctx.ndim)]
         axes += [{'axis': -1}]
         if ctx.ndim >= 2:
